@@ -2,6 +2,7 @@ package main
 
 import (
 	"encoding/base64"
+	"encoding/json"
 	"math/rand"
 	"strings"
 
@@ -274,6 +275,96 @@ func c17PickKeys(r *rand.Rand) []string {
 	for _, i := range r.Perm(len(c17Keys)) {
 		if k := c17Keys[i]; len(out) < 8 && !seen[k] {
 			out = append(out, k)
+		}
+	}
+	return out
+}
+
+// c17ShrinkForm: shrink candidates of a manifest case that the generic shrinker does not produce - the case without
+// its written form, without one feature of the form, without form entries of items that are gone, and binary items
+// cut three bytes at a time (the length mod 3, which decides the padding, is kept).
+func c17ShrinkForm(raw []byte) [][]byte {
+	var cs c17Manifest
+	if err := json.Unmarshal(raw, &cs); err != nil {
+		return nil
+	}
+	var out [][]byte
+	emit := func(c c17Manifest) {
+		if b, err := json.Marshal(c); err == nil && len(b) < len(raw) {
+			out = append(out, b)
+		}
+	}
+	for i, it := range cs.Bin {
+		for _, n := range []int{len(it.B) % 3, 3 + len(it.B)%3, len(it.B) - 3} {
+			if n >= 0 && n < len(it.B) {
+				c := cs
+				c.Bin = append([]c17Bin{}, cs.Bin...)
+				c.Bin[i] = c17Bin{K: it.K, B: it.B[:n]}
+				emit(c)
+			}
+		}
+	}
+	if cs.Form == nil {
+		return out
+	}
+	c := cs
+	c.Form = nil
+	emit(c)
+	with := func(edit func(f *c17Form)) {
+		f := *cs.Form
+		f.Text = map[string]string{}
+		for k, v := range cs.Form.Text {
+			f.Text[k] = v
+		}
+		f.Bin = map[string]c17BinForm{}
+		for k, v := range cs.Form.Bin {
+			f.Bin[k] = v
+		}
+		edit(&f)
+		c := cs
+		c.Form = &f
+		emit(c)
+	}
+	has := map[string]bool{}
+	for _, it := range cs.Text {
+		has["t:"+it.K] = true
+	}
+	for _, it := range cs.Bin {
+		has["b:"+it.K] = true
+	}
+	with(func(f *c17Form) {
+		for k := range f.Text {
+			if !has["t:"+k] {
+				delete(f.Text, k)
+			}
+		}
+		for k := range f.Bin {
+			if !has["b:"+k] {
+				delete(f.Bin, k)
+			}
+		}
+	})
+	with(func(f *c17Form) { f.Flow = nil })
+	with(func(f *c17Form) { f.KeyStyle = "" })
+	with(func(f *c17Form) { f.Comment = false })
+	with(func(f *c17Form) { f.CRLF = false })
+	with(func(f *c17Form) { f.Text = map[string]string{} })
+	for _, k := range sortedKeys(cs.Form.Bin) {
+		k := k
+		bf := cs.Form.Bin[k]
+		for _, e := range []func(b *c17BinForm){
+			func(b *c17BinForm) { *b = c17BinForm{} },
+			func(b *c17BinForm) { b.Lead = false },
+			func(b *c17BinForm) { b.Wrap = 0 },
+			func(b *c17BinForm) { b.EOL = "" },
+			func(b *c17BinForm) { b.Style = "" },
+			func(b *c17BinForm) { b.Trail = false },
+		} {
+			nb := bf
+			e(&nb)
+			if nb != bf {
+				with(func(f *c17Form) { f.Bin[k] = nb })
+			}
 		}
 	}
 	return out
